@@ -66,7 +66,10 @@ structure LiveFacts (L : SwarmLive σ ω) (adv : SwarmAdv σ W ω η ι τ) (k :
     ∃ sp w o pre, run.spawns.getLast? = some sp ∧ sp.worker = .ok w ∧ sp.steps = pre ++ [.ok o] ∧
       NoMarkerL L pre ∧ L.marker o = true ∧ r.output = some o ∧ r.finalId = some (adv.wid w) ∧
       r.total = run.sw.counter
-  failure : ∀ r, run.res = some (.ok r) → r.success = false → r.output = none ∧ r.finalId = none
+  failure : ∀ r, run.res = some (.ok r) → r.success = false → r.output = none ∧ r.finalId = none ∧
+    -- the loop test failed on the limit as it is in the final state, after all the spawns of the call
+    ¬ ((k + run.spawns.length : Nat) : Int) ≤ L.regenOf run.st ∧
+    ∀ sp ∈ run.spawns, NoMarkerL L sp.steps ∧ ∃ w hh, sp.worker = .ok w ∧ sp.summ = some (.ok hh)
 
 theorem superviseLoopL_facts (L : SwarmLive σ ω) (adv : SwarmAdv σ W ω η ι τ) (task : τ) :
     ∀ fuel k hints sw s, LiveFacts L adv k sw (superviseLoopL L adv task fuel k hints sw s) := by
@@ -87,10 +90,10 @@ theorem superviseLoopL_facts (L : SwarmLive σ ω) (adv : SwarmAdv σ W ω η ι
           (∀ r, res = some (.ok r) → r.success = true →
             ∃ w o pre, sp.worker = .ok w ∧ sp.steps = pre ++ [.ok o] ∧ NoMarkerL L pre ∧ L.marker o = true ∧
               r.output = some o ∧ r.finalId = some (adv.wid w) ∧ r.total = sw.counter + 1) →
-          (∀ r, res = some (.ok r) → r.success = false → r.output = none ∧ r.finalId = none) →
+          (∀ r, res = some (.ok r) → r.success = false → False) →
           LiveFacts L adv k sw ⟨s', ⟨sw.counter + 1, sw.apop, sw.regen⟩, res, [sp], [(L.regenOf s, m)]⟩ := by
         intro s' res sp m hst hsucc hfail
-        refine ⟨rfl, ?_, ?_, rfl, ?_, hfail⟩
+        refine ⟨rfl, ?_, ?_, rfl, ?_, fun r hr hs => (hfail r hr hs).elim⟩
         · intro i rm hi
           cases i with
           | zero => simp at hi; subst hi; simpa using hg
@@ -133,7 +136,10 @@ theorem superviseLoopL_facts (L : SwarmLive σ ω) (adv : SwarmAdv σ W ω η ι
             have hc : sw'.counter = sw.counter + 1 := by rw [← hsw']
             have f := ih (k + 1) h sw' s3
             generalize superviseLoopL L adv task fuel (k + 1) h sw' s3 = rest at f
-            refine ⟨by simp [f.len], ?_, ?_, ?_, ?_, f.failure⟩
+            have hnm : NoMarkerL L steps := by
+              have := hw.2
+              simpa using this
+            refine ⟨by simp [f.len], ?_, ?_, ?_, ?_, ?_⟩
             · intro i rm hi
               cases i with
               | zero => simp at hi; subst hi; simpa using hg
@@ -153,15 +159,27 @@ theorem superviseLoopL_facts (L : SwarmLive σ ω) (adv : SwarmAdv σ W ω η ι
             · intro r hr hs
               obtain ⟨sp, w', o, pre, g0, g⟩ := f.success r hr hs
               exact ⟨sp, w', o, pre, getLast?_cons_of_getLast? _ _ _ g0, g⟩
+            · intro r hr hs
+              obtain ⟨g1, g2, g3, g4⟩ := f.failure r hr hs
+              refine ⟨g1, g2, ?_, ?_⟩
+              · simp only [List.length_cons]
+                have e : k + (rest.spawns.length + 1) = k + 1 + rest.spawns.length := by omega
+                rw [e]; exact g3
+              · intro sp hsp
+                simp only [List.mem_cons] at hsp
+                rcases hsp with hsp | hsp
+                · subst hsp; exact ⟨hnm, w, h, rfl, rfl⟩
+                · exact g4 sp hsp
     · refine ⟨rfl, by simp, by simp, by simp, ?_, ?_⟩
       · intro r hr hs
         simp only [Option.some.injEq, Out.ok.injEq] at hr
         subst hr
         cases hs
-      · intro r hr _
+      · rename_i hg
+        intro r hr _
         simp only [Option.some.injEq, Out.ok.injEq] at hr
         subst hr
-        exact ⟨rfl, rfl⟩
+        exact ⟨rfl, rfl, by simpa using hg, by simp⟩
 
 /-- `spawns.length ≤ (largest regeneration limit read) + 1 - k` -/
 theorem liveFacts_spawns_le (L : SwarmLive σ ω) (adv : SwarmAdv σ W ω η ι τ) (k : Nat) (sw0 : SwarmSt ι η)
